@@ -51,6 +51,7 @@ static char *unchar_wrap(char *s) { char *r = qstrunchar(s, (char)uc_head, (char
 
 int main(void) {
     qv_install();
+    { struct sigaction sa; memset(&sa, 0, sizeof sa); sa.sa_handler = qv_segv; sa.sa_flags = SA_NODEFER; sigaction(SIGFPE, &sa, NULL); }  /* x / strlen("") */
     while (fgets(line, sizeof line, stdin)) {
         if (line[0] == '#' || line[0] == '\n') continue;
         char op[32]; for (int i = 0; i < 6; i++) a[i][0] = 0;
@@ -74,7 +75,7 @@ int main(void) {
             size_t cap = (size_t)atol(a[4]); if (cap < ns + 1) cap = ns + 1;
             guard_t gm = gstr(t1, nm, 0), gt = gstr(t3, nt, 0), gw = gstr(t4, nw, 0);
             guard_t gs = guard_alloc(cap, 0); memset(gs.p, 0xAA, cap); memcpy(gs.p, t2, ns); gs.p[ns] = 0;
-            if (QV_TRY(5)) {
+            if (QV_TRY(2)) {
                 gm_start();
                 char *r = qstrreplace((char *)gm.p, (char *)gs.p, (char *)gt.p, (char *)gw.p);
                 gm_stop(); QV_END;
